@@ -24,6 +24,8 @@ let rec pos_of_int n =
 let z_of_int n = if n = 0 then Z0 else if n > 0 then Zpos (pos_of_int n) else Zneg (pos_of_int (-n))
 let rec int_of_pos = function XH -> 1 | XO p -> 2 * int_of_pos p | XI p -> 2 * int_of_pos p + 1
 let int_of_z = function Z0 -> 0 | Zpos p -> int_of_pos p | Zneg p -> - (int_of_pos p)
+let n_of_int n = if n <= 0 then N0 else Npos (pos_of_int n)
+let int_of_n = function N0 -> 0 | Npos p -> int_of_pos p
 
 type range = RBool | RInt | RReal
 type labeling = MT | EVP | IDX | EVT
@@ -429,6 +431,13 @@ let robs impl =
                | Some (c, a) -> Printf.sprintf " %s=%d%s" k c (if a then "a" else "z")
                | None -> Printf.sprintf " %s=?" k) tnames)))
 
+(* ---- C15 on product sets too large to tabulate (Model/Product.v) ---- *)
+let prodsets : (string, string * int list array) Hashtbl.t = Hashtbl.create 7
+let prodidx : (string, string * int list array) Hashtbl.t = Hashtbl.create 7
+let prod_al (al : int list array) : nat -> nat list = fun k ->
+  let k = int_of_nat k in
+  if k >= 1 && k <= Array.length al then List.map nat_of_int al.(k - 1) else []
+
 (* ---- C16: documented precondition checks of apply (domain, set/relation) ---- *)
 let forest_of_edge name = Hashtbl.find_opt edge_forest_name name
 
@@ -457,7 +466,7 @@ let apply_precheck r fn op a b =
 
 let registry_note toks =
   match toks with
-  | ("coll" | "minterm" | "const" | "var" | "apply" | "unary" | "satpre" | "reattach") :: n :: fn :: _ -> note_edge n fn
+  | ("coll" | "minterm" | "const" | "var" | "apply" | "unary" | "satpre" | "reattach" | "prodset" | "idxbig") :: n :: fn :: _ -> note_edge n fn
   | "read" :: _ :: fn :: names -> List.iter (fun n -> note_edge n fn) names
   | "readnew" :: _ :: fn :: _ :: names -> List.iter (fun n -> note_edge n fn) names
   | "copyedge" :: b :: a :: _ ->
@@ -1229,6 +1238,39 @@ let rec run toks =
     Hashtbl.replace idxsets r (fan, ta);
     emit (Printf.sprintf "%s tab=%s" r (Stdlib.String.concat "," (List.map (function
         | Some i -> string_of_int (int_of_nat i) | None -> "inf") tb)))
+  | "prodset" :: a :: fn :: toks ->
+    (* product set: per variable (variable 1 first) the allowed values; never tabulated *)
+    Hashtbl.remove edges a; Hashtbl.remove evtabs a;
+    let f = get_forest fn in
+    if f.lab <> MT || f.rel || f.range <> RBool then raise Unsupported;
+    let k = Array.length f.sizes in
+    if List.length toks <> k then raise Unsupported;
+    let al = Array.of_list (List.map (fun t ->
+        List.sort_uniq compare (List.map int_of_string (Stdlib.String.split_on_char ',' t))) toks) in
+    Array.iteri (fun i l -> List.iter (fun v -> if v < 0 || v >= f.sizes.(i) then raise Unsupported) l) al;
+    Hashtbl.replace prodsets a (fn, al);
+    emit (Printf.sprintf "prodset card=%d" (int_of_n (prod_countN (prod_al al) (nat_of_int k))))
+  | "idxbig" :: x :: _ :: a :: _ ->
+    let (fn, al) = try Hashtbl.find prodsets a with Not_found -> raise Unsupported in
+    Hashtbl.replace prodidx x (fn, al);
+    let k = Array.length al in
+    (* the stored cardinality of the root is the number of members (ProductP.product_cardinality) *)
+    emit (Printf.sprintf "idxbig stored_card=%d" (int_of_n (prod_countN (prod_al al) (nat_of_int k))))
+  | "getelemat" :: x :: idxs ->
+    let (_, al) = try Hashtbl.find prodidx x with Not_found -> raise Unsupported in
+    let k = Array.length al in
+    let l = nat_of_int k in
+    let cnt = int_of_n (prod_countN (prod_al al) l) in
+    let parts = List.map (fun s ->
+        let i = int_of_string s in
+        if i < 0 || i >= cnt then "none"          (* ProductP.product_get_element *)
+        else begin
+          let m = unrankN (prod_al al) l (n_of_int i) in
+          let digits = List.init k (fun j -> string_of_int (int_of_nat (m (nat_of_int (k - j))))) in
+          (* the index set maps the member to its rank (ProductP.rank_unrank) *)
+          Stdlib.String.concat "." digits ^ "=" ^ string_of_int (int_of_n (rankN (prod_al al) l m))
+        end) idxs in
+    emit (Stdlib.String.concat " " ("getelemat" :: parts))
   | "getelem" :: i :: lo :: hi :: _ ->
     let (fan, ta) = try Hashtbl.find idxsets i with Not_found -> raise Unsupported in
     let fa = get_forest fan in
